@@ -41,10 +41,11 @@ def run_bounded(rep, prop, configs, budget_s, seed, want=None, clause=None):
     crashes = [r for r in recs if r["status"] == "checker-crash"]
     for c in crashes[:3]:
         rep.crash(f"bounded task crashed: {c['detail']}")
-    key = {"C04": "C02"}.get(prop, prop)  # a clobbered live value is observed as a difference of effects
+    key = {"C04": "C02"}.get(prop, prop)  # a clobbered live value is also observed as a difference of effects
     for r in recs:
         if key != prop and r.get("fails", {}).get(key):
-            r["fails"][prop] = r["fails"][key]
+            r["fails"].setdefault(prop, [])
+            r["fails"][prop] += r["fails"][key]
     fails = [r for r in recs if r.get("fails", {}).get(prop)]
     ran = [r for r in recs if r["status"] in ("ok", "fail")]
     nontrivial = {(tuple(r["features"]), r.get("effects")) for r in ran if r.get("effects", 0) >= 1}
